@@ -256,6 +256,24 @@ def check_note(c):
     wsub = [ctl >> 8, ctl & 0xFF, val >> 8, val & 0xFF]
     if sub != wsub:
         raise PropertyViolation("C12.note.subfields", "cell %r sub-fields read %r, expected %r" % (c, sub, wsub))
+    # a decoded cell is edited field by field: the bytes follow every assignment (nothing of the
+    # bytes it was decoded from is kept), the other fields stay
+    cmds = list(NOTECMD)
+    new = [int(cmds[(cmds.index(NOTECMD(note)) + 1 + vel) % len(cmds)]), (vel + 1 + module) % 130, module ^ 0x0101, ctl ^ 0x0110, val ^ 0x8001]
+    for fi, fname in enumerate(("note", "vel", "module", "ctl", "val")):
+        for prime in (False, True):
+            n3 = Note()
+            n3.raw_data = raw
+            if prime:
+                n3.raw_data  # noqa: B018 - the bytes have been asked for once before the edit
+            setattr(n3, fname, NOTECMD(new[fi]) if fi == 0 else new[fi])
+            exp = list(c)
+            exp[fi] = new[fi]
+            got3 = n3.raw_data
+            if got3 != struct.pack("<BBHHH", *exp):
+                raise PropertyViolation("C12.note.edit_after_decode", "cell %r decoded, %s <- %r%s: encodes to %r, expected %r" % (c, fname, new[fi], " (raw_data read before)" if prime else "", got3, struct.pack("<BBHHH", *exp)), key="C12.note.edit_after_decode:" + fname)
+            if [int(n3.note), n3.vel, n3.module, n3.ctl, n3.val] != exp:
+                raise PropertyViolation("C12.note.edit_after_decode.fields", "cell %r decoded, %s <- %r: fields read %r" % (c, fname, new[fi], [int(n3.note), n3.vel, n3.module, n3.ctl, n3.val]), key="C12.note.edit_after_decode.fields:" + fname)
     c3 = n.clone()
     if [int(c3.note), c3.vel, c3.module, c3.ctl, c3.val] != c:
         raise PropertyViolation("C12.note.clone", "clone of %r is %r" % (c, [int(c3.note), c3.vel, c3.module, c3.ctl, c3.val]))
@@ -309,6 +327,20 @@ def check_pattern(case):
         raise PropertyViolation("C12.pattern.load", "loaded pattern %dx%d raw_data differs from the image" % (qp.tracks, qp.lines))
     if q.read() != data:
         raise PropertyViolation("C12.pattern.resave", "loading and saving the pattern image changed the file")
+    # one cell of the loaded pattern is rewritten field by field: the image changes in exactly those 8 bytes
+    k0 = (len(cells) * 2) // 3
+    ln, tr = divmod(k0, tracks)
+    n = qp.data[ln][tr]
+    c = list(cells[k0])
+    for fi, fname in enumerate(("vel", "module", "ctl", "val"), 1):
+        c[fi] = (c[fi] + 1 + k0) % (130 if fi == 1 else 0x10000)
+        setattr(n, fname, c[fi])
+        want = image[: k0 * 8] + struct.pack("<BBHHH", *c) + image[k0 * 8 + 8 :]
+        if qp.raw_data != want:
+            raise PropertyViolation("C12.pattern.edit_after_load", "loaded pattern %dx%d: cell %d %s <- %r is not what raw_data holds" % (tracks, lines, k0, fname, c[fi]), key="C12.pattern.edit_after_load:" + fname)
+    q2 = read_sunvox_file(BytesIO(q.read()))
+    if q2.patterns[0].raw_data != want:
+        raise PropertyViolation("C12.pattern.edit_after_load.saved", "loaded pattern %dx%d: edited cell %d is not what the saved file holds" % (tracks, lines, k0))
 
 
 def run_shard(ctx, desc):
